@@ -156,20 +156,30 @@ def _run(prog, chk):
     cp = fc.params[0]["n"]
     FULL = K("KSI_ASYNC_REQUEST_CACHE_FULL")
     for size, pending, received, count, occupied_next in ((4, 3, 0, 1, 0), (4, 2, 1, 1, 0), (4, 2, 0, 1, 0), (4, 0, 0, 3, 0), (4, 1, 0, 1, 1), (1, 0, 0, 1, 0),
-                                                            (2, 0, 0, 1, 0), (3, 0, 0, 2, 0), (3, 0, 0, 1, 0), (3, 1, 0, 1, 1), (4, 2, 0, 2, 1), (4, 0, 0, 0, 0)):
+                                                            (2, 0, 0, 1, 0), (3, 0, 0, 2, 0), (3, 0, 0, 1, 0), (3, 1, 0, 1, 1), (4, 2, 0, 2, 1), (4, 0, 0, 0, 0),
+                                                            # more outstanding than slots (a pending configuration request takes no slot): every slot busy
+                                                            (2, 2, 0, 1, "all"), (3, 2, 1, 1, "all"), (2, 1, 1, 1, "all")):
         inputs = {cp: Ptr("cl"), fc.params[1]["n"]: Ptr("ID"), fc.params[2]["n"]: Ptr("OFF"), "cl->reqCache": Ptr("cache"), "cl->options[%d]" % CSIZE: size,
                   "cl->pending": pending, "cl->received": received, "cl->requestCount": count, "cl->requestCountOffset": 7}
         for s in range(0, 6):
             inputs["cache[%d]" % s] = 0
-        if occupied_next:
+        if occupied_next == "all":
+            for s_ in range(1, size):
+                inputs["cache[%d]" % s_] = Ptr("busy%d" % s_)
+        elif occupied_next:
             inputs["cache[%d]" % (count + 1)] = Ptr("busy")
         I = Interp(fc, inputs=inputs, call_model=succeed_model(prog, {}), on_unknown="stop", prog=prog, loop_bound=8)
         paths = I.run()
         if len(paths) != 1 or paths[0].undetermined:
             raise AnalysisBroken("asyncClient_calculateRequestId: evaluation not determined: %s" % [q.undetermined[:1] for q in paths])
         q = paths[0]
+        if q.reason == "bound":
+            chk.ob("C13.cache", "calculateRequestId[size=%d,pending=%d,received=%d,next=%d,%s]" % (size, pending, received, count, occupied_next), False,
+                   "the slot search does not terminate: every slot is busy and the cache-full test (an equality) is overshot; expected "
+                   "KSI_ASYNC_REQUEST_CACHE_FULL", loc=fc.loc(), fn=fc)
+            continue
         idv = [s[2] for s in q.stores("*" + fc.params[1]["n"])]
-        full = size == pending + received + 1
+        full = size <= pending + received + 1
         if full:
             ok = q.ret == FULL and not idv
             want = "KSI_ASYNC_REQUEST_CACHE_FULL (outstanding %d == usable slots %d)" % (pending + received, size - 1)
